@@ -20,9 +20,10 @@ var (
 
 // refDifficulty: EIP-100 adjustment with an ice-age delayed by `delay` blocks (EIP-649: 3M, EIP-1234: 5M,
 // EIP-2384: 9M, EIP-3554: 9.7M, EIP-4345: 10.7M), formulated on the CHILD number as in the EIPs:
-//   adj  = max((2 if parent has uncles else 1) - (time - parent.time) // 9, -99)
-//   diff = max(parent.diff + parent.diff // 2048 * adj, 131072)
-//   fake = max(0, number - delay); if fake // 100000 >= 2: diff += 2 ** (fake // 100000 - 2)
+//
+//	adj  = max((2 if parent has uncles else 1) - (time - parent.time) // 9, -99)
+//	diff = max(parent.diff + parent.diff // 2048 * adj, 131072)
+//	fake = max(0, number - delay); if fake // 100000 >= 2: diff += 2 ** (fake // 100000 - 2)
 func refDifficulty(delay uint64, time, parentTime uint64, parentDiff *big.Int, parentUncles bool, parentNumber uint64) *big.Int {
 	q := int64((time - parentTime) / 9)
 	adj := int64(1)
